@@ -220,6 +220,8 @@ pub struct Sched {
     pub fail2_at: Option<usize>,
     pub nonfinite_at: Option<usize>,
     pub terminate_at: Option<usize>,
+    /// a second Terminate this many rounds after the first (time limit then Ctrl-C, double Ctrl-C)
+    pub terminate_again: Option<usize>,
     pub honour_num: u64, // out of 8
     pub close_cmd_at: Option<usize>,
     pub close_rep_at: Option<usize>,
@@ -481,6 +483,11 @@ pub fn run_schedule_ex(s: &Sched, replay: Option<(&[Vec<Action>], bool)>) -> (Ob
                     actions.clear();
                 }
                 actions.push(Action::Terminate);
+            }
+            if let (Some(t0), Some(d)) = (s.terminate_at, s.terminate_again) {
+                if round == t0 + d && cmd_tx_opt.is_some() {
+                    actions.push(Action::Terminate);
+                }
             }
             if Some(round) == s.close_cmd_at {
                 actions.push(Action::CloseCmd);
@@ -744,6 +751,7 @@ pub fn gen_sched(master: u64, idx: u64, profile: &str) -> Sched {
         fail2_at,
         nonfinite_at,
         terminate_at,
+        terminate_again: if (profile == "stop" || profile == "mixed") && terminate_at.is_some() && r.chance(1, 3) { Some(1 + r.below(3)) } else { None },
         honour_num,
         close_cmd_at,
         close_rep_at,
